@@ -9,6 +9,11 @@ ASSUME_COMMON = [
     'exhaustive only within the stated constants; beyond them coverage is by seeded simulation and randomized drivers',
 ]
 
+ASSUME_CONC = ASSUME_COMMON + [
+    'all interleavings are enumerated on the specification (Lock.tla / Globals.tla); on the code they are sampled by real schedules under the Go race detector, which is trusted to turn a data race between overlapping operations into an observable fault',
+    'the harness brackets operations with one atomic counter: operations that do not overlap in a run are ordered by it, so race detection applies to operations that really overlapped (unlogged stress iterations have no such ordering)',
+]
+
 RULE_ROUTER = ('cases are TLC-generated histories of Router.tla (BFS: every history up to the depth from every base table; '
                '-simulate: seeded random behaviours) plus Go-driver inputs, replayed on the real router; after the history an observation '
                'battery (Routes(), every probe path x every probe method, URL round trips) is recorded and every event validated by the TLC trace '
@@ -120,8 +125,41 @@ def params_stages(depth, sample):
              'trace': 'Trace_Params', 'sample': sample, 'min_per_shard': 50}]
 
 
+RULE_CONC = ('TLC (-simulate, seeded) generates concurrent PROGRAMS (one op list per goroutine: writers Handle/Remove/Clean that split and re-merge nodes of untouched routes, '
+             'readers ServeHTTP/Routes/URL; or one goroutine per independent instance; or readers on a quiescent router); each program runs with real goroutines on a -race build in a child process: '
+             'logged iterations (call/ret bracketed by one atomic counter, context enter/exit) are validated for linearizability by Trace_Lin.tla, unlogged stress iterations add schedules; '
+             'a race report, runtime fatal error, panic or hang is a fault event the specification never admits. Lock.tla model-checks the lock discipline for all interleavings. Non-trivial = every op event.')
+
+
+def lock_stages(q):
+    c = {'Discipline': '"intended"', 'NOps': 2}
+    sb = {'Writers': 'W2', 'Readers': 'R2' if q else 'R3'}
+    inv = ['RaceFree', 'LockOK', 'NoTornReply']
+    return [{'kind': 'mc', 'name': 'lock', 'module': 'MC_Lock', 'subst': sb, 'consts': c, 'invariants': inv, 'workers': 16},
+            {'kind': 'mc_neg', 'name': 'lock-asbuilt', 'module': 'MC_Lock', 'subst': {'Writers': 'W2', 'Readers': 'R2'}, 'consts': dict(c, Discipline='"asBuilt"'),
+             'invariants': ['RaceFree'], 'expect': 'RaceFree'}]
+
+
+def globals_stages(q):
+    c = {'Discipline': '"intended"', 'NOps': 2 if q else 3}
+    sb = {'Procs': 'P3', 'Ctxs': 'C3'}
+    return [{'kind': 'mc', 'name': 'globals', 'module': 'MC_Globals', 'subst': sb, 'consts': c, 'invariants': ['RaceFree', 'PoolOK'], 'workers': 16},
+            {'kind': 'mc_neg', 'name': 'globals-asbuilt', 'module': 'MC_Globals', 'subst': sb, 'consts': dict(c, Discipline='"asBuilt"', NOps=2),
+             'invariants': ['RaceFree'], 'expect': 'RaceFree'}]
+
+
+def conc_stage(mode, k, num, iters, stress, seedoff=0):
+    return {'kind': 'gen', 'name': 'conc-' + mode, 'module': 'MC_Conc', 'consts': {'Mode': '"%s"' % mode, 'K': k, 'Iter': iters, 'Stress': stress},
+            'simulate': num, 'depth': 64, 'trace': 'Trace_Lin', 'race': True, 'min_per_shard': 2, 'max_shards': 8, 'seedoff': seedoff, 'limit': num * 6}
+
+
 def plan(prop, tier):
     q = tier == 'quick'
+    if prop == 'C06':
+        return {'stages': lock_stages(q) + [conc_stage('c06', 4, 6 if q else 60, 3, 20 if q else 60)], 'rule': RULE_CONC, 'assumptions': ASSUME_CONC}
+    if prop == 'C07':
+        return {'stages': globals_stages(q) + [conc_stage('c07inst', 4, 2 if q else 30, 2, 15 if q else 40), conc_stage('c07quiet', 6, 2 if q else 30, 3, 15 if q else 40, 1),
+                                               conc_stage('c07seq', 8, 6 if q else 80, 1, 0, 2)], 'rule': RULE_CONC, 'assumptions': ASSUME_CONC}
     if prop == 'C20':
         return {'stages': params_stages(2, 1.0) + params_stages(3, 0.1 if q else 0.6)[1:], 'rule': RULE_PARAMS, 'assumptions': ASSUME_COMMON}
     if prop == 'C14':
